@@ -354,7 +354,7 @@ class _Reader:
         return self.chunks.pop(0)
 
 
-class _Log:
+class _Log(C.LogBase):
     """logger stand-in: `exception()` is how the library reports a swallowed exception"""
 
     def __init__(self, eff):
@@ -368,8 +368,7 @@ class _Log:
 
     def exception(self, *a, **k):
         kind = exc_kind(sys.exc_info()[0])
-        text = str(a[0]) if a else ""
-        outermost = text.startswith("socket_read_task") or text.startswith("heartbeat_timer")
+        outermost = C.log_origin() == "task"
         if self.mode == "task" and outermost:  # a task's outermost handler: the iteration is aborted
             raise _Abort(kind)
         self.eff.append(("C", kind))
@@ -429,7 +428,7 @@ class Impl:
 
         self.codec_mod = codec_mod
         self._saved = (cm.time, cm.asyncio, getattr(codec_mod, "datetime", None))
-        cm.time = types.SimpleNamespace(time=lambda: impl.now_ms / 1000)
+        cm.time = C.clock_patch(cm, lambda: impl.now_ms / 1000)
         self.fake_datetime = fake_datetime_class(lambda: impl.now_ms)
         codec_mod.datetime = self.fake_datetime
 
